@@ -1238,10 +1238,12 @@ class Interp:
         if isinstance(fn, tuple) and fn[0] == 'builtin':
             return self.call_builtin(fn[1], args, e)
         if isinstance(fn, ModuleFunc):
-            if fn.node.name == 'parse_expression':
+            if fn.node.name == 'parse_expression' and not getattr(self, 'concrete_parse', False):
                 if self.fail_parse is not None and self.fail_parse(args[0]):
                     raise RaiseSig('BareScriptParserError', (Sym('inner-error'), args[0], Sym('inner-column')), e)
                 return Sym('parsed', args[0])
+            if fn.node.name in self.oracles:
+                return self.oracles[fn.node.name](args, e)         # a local alias of an oracle-answered function
             if fn.mod is not None and fn.mod is not self.mod and getattr(self, 'repo', None) is not None:
                 return self.sub_interp(fn.mod).call_function(fn.node, args, e, kwargs)
             return self.call_function(fn.node, args, e, kwargs)
